@@ -49,6 +49,7 @@ def run(ctx):
     scratch = "/var/tmp/C02-data-%d" % os.getpid()
     traces = []
     san_trace = None
+    crashed = None
     if ctx.replay:
         traces = [ctx.replay]
     else:
@@ -56,10 +57,14 @@ def run(ctx):
         try:
             exe = lib.build_driver("c02_projdata")
             t1 = os.path.join(ctx.work, "rand.ndjson")
-            lib.run_driver(exe, ["rand", t1, 96 if q else 800, 110 if q else 260, scratch], env=env, timeout=900)
+            rc1, o1 = lib.run_driver(exe, ["rand", t1, 96 if q else 800, 110 if q else 260, scratch], env=env, timeout=900, allow_fail=True)
             t2 = os.path.join(ctx.work, "exh.ndjson")
-            lib.run_driver(exe, ["exh", t2, 2 if q else 1000, scratch], env=env, timeout=900)
-            traces = [t1, t2]
+            rc2, o2 = lib.run_driver(exe, ["exh", t2, 2 if q else 1000, scratch], env=env, timeout=900, allow_fail=True)
+            traces = [t for t in (t1, t2) if os.path.exists(t) and os.path.getsize(t) > 0]
+            # a crash outside a call on the store (exit 3, e.g. a corrupted heap found later) is a tooling failure UNLESS the
+            # lines recorded before it already contain calls the specification cannot explain (then those are reported)
+            if rc1 != 0 or rc2 != 0:
+                crashed = "driver ended abnormally (rand rc=%d, exh rc=%d)\n%s" % (rc1, rc2, (o1 + o2)[-1500:])
             if not q:
                 # the same kind of histories against the ASan/UBSan-instrumented libraries: a sanitizer report inside a
                 # call is an Abort line, which the specification never accepts
@@ -116,6 +121,8 @@ def run(ctx):
             lib.write_ndjson(rp, ex[1][: first - ex[0] + 1])
             ctx.violation("%d recorded calls not explained by ProjDataStore.tla, first (line %d): %s"
                           % (len(newbad), first, json.dumps(recs[first - 1])[:260]), rp)
+    if crashed and not ctx.violations:
+        raise lib.ModelFailure(crashed)
     ctx.extra["store_executions"] = nconf
     ctx.exhaustive = False
     ctx.assumptions = [
